@@ -1,7 +1,8 @@
-(* C01 — what the inclusion verifier does guarantee against an UNKNOWN root (a root that need not be
-   the root of any genuine tree): two accepted proofs of the SAME LENGTH for the same position carry
-   the same leaf.  (Proofs of different lengths do not: Proofs/Refuted.v, family D.) *)
-From V Require Import Proofs.History Merkle.Sound.
+(* C01 — what the inclusion verifier guarantees against an UNKNOWN root (a root that need not be the
+   root of any genuine tree): two accepted proofs for the same position carry the same leaf. Since
+   /repo commit c59ab5b the verifier pins the proof length as a function of (i, j), so both proofs
+   hash along the same directions (fact (U) of Proofs/Session.v). *)
+From V Require Import Proofs.History Proofs.Gen Proofs.Binding Proofs.Linear Proofs.Sound Merkle.Sound.
 From Coq Require Import ZifyN ZifyNat ZifyBool.
 Open Scope N_scope.
 
@@ -26,22 +27,151 @@ Proof.
       destruct (nodeh_inj H h1 c1 h2 c2 ltac:(congruence) E1) as [[_ ->]|C]; auto.
 Qed.
 
-Theorem inclusion_unique_same_length (t1 t2 : list bytes) (i j : N) (a b root : bytes) :
-  len32 t1 -> len32 t2 -> length t1 = length t2 ->
+Theorem inclusion_unique (t1 t2 : list bytes) (i j : N) (a b root : bytes) :
+  len32 t1 -> len32 t2 ->
   verify_inclusion H t1 i j (leafh H a) root = true ->
   verify_inclusion H t2 i j (leafh H b) root = true ->
   a = b \/ Collision.
 Proof.
-  intros F1 F2 L V1 V2. unfold verify_inclusion in V1, V2.
+  intros F1 F2 V1 V2. unfold verify_inclusion in V1, V2.
   destruct ((j <? i) || (i =? 0) || (i <? j) && (lenN t1 =? 0)); [discriminate|].
   destruct ((j <? i) || (i =? 0) || (i <? j) && (lenN t2 =? 0)); [discriminate|].
-  destruct (negb (N.shiftr (i - 1) (lenN t1) =? _)); [discriminate|].
-  destruct (negb (N.shiftr (i - 1) (lenN t2) =? _)); [discriminate|].
+  destruct (N.eqb_spec (lenN t1) (inclusion_proof_len i j)) as [L1|]; [|discriminate].
+  destruct (N.eqb_spec (lenN t2) (inclusion_proof_len i j)) as [L2|]; [|discriminate].
+  cbn [negb] in V1, V2.
   apply list_eqb_eq in V1. apply list_eqb_eq in V2.
+  assert (L : length t1 = length t2) by (unfold lenN in *; lia).
   destruct (eval_inclusion_inj t1 t2 (i - 1) (j - 1) (leafh H a) (leafh H b) L F1 F2) as [E|C]; auto.
   - unfold leafh. rewrite !H_len. reflexivity.
   - congruence.
   - apply (leafh_inj H _ _ E).
+Qed.
+
+(* the same for the last-inclusion verifier *)
+Lemma eval_last_inj : forall (t1 t2 : list bytes) (c1 c2 : bytes),
+  length t1 = length t2 -> len32 t1 -> len32 t2 -> length c1 = length c2 ->
+  eval_last_inclusion H t1 c1 = eval_last_inclusion H t2 c2 -> c1 = c2 \/ Collision.
+Proof.
+  induction t1 as [|h1 r1 IH]; intros [|h2 r2] c1 c2 L F1 F2 Lc E; try discriminate.
+  - left. exact E.
+  - cbn [eval_last_inclusion] in E. inversion F1 as [|? ? L1 F1']; subst. inversion F2 as [|? ? L2 F2']; subst.
+    simpl in L. injection L as L.
+    destruct (IH r2 _ _ L F1' F2' ltac:(unfold nodeh; rewrite !H_len; reflexivity) E) as [E1|C]; auto.
+    destruct (nodeh_inj H h1 c1 h2 c2 ltac:(congruence) E1) as [[_ ->]|C]; auto.
+Qed.
+
+Theorem last_inclusion_unique (t1 t2 : list bytes) (i : N) (a b root : bytes) :
+  len32 t1 -> len32 t2 ->
+  verify_last_inclusion H t1 i (leafh H a) root = true ->
+  verify_last_inclusion H t2 i (leafh H b) root = true ->
+  a = b \/ Collision.
+Proof.
+  intros F1 F2 V1 V2. unfold verify_last_inclusion in V1, V2.
+  destruct (i =? 0); [discriminate|]. cbn [orb] in V1, V2.
+  destruct (N.eqb_spec (lenN t1) (inclusion_proof_len i i)) as [L1|]; [|discriminate].
+  destruct (N.eqb_spec (lenN t2) (inclusion_proof_len i i)) as [L2|]; [|discriminate].
+  cbn [negb] in V1, V2. apply list_eqb_eq in V1. apply list_eqb_eq in V2.
+  assert (L : length t1 = length t2) by (unfold lenN in *; lia).
+  destruct (eval_last_inj t1 t2 (leafh H a) (leafh H b) L F1 F2) as [E|C]; auto.
+  - unfold leafh. rewrite !H_len. reflexivity.
+  - congruence.
+  - apply (leafh_inj H _ _ E).
+Qed.
+
+
+(* ---------- linear proofs: the chain is determined by its end ---------- *)
+Lemma lin_fold_inj : forall (r1 r2 : list bytes) (s : N) (a b : bytes),
+  length r1 = length r2 -> length a = length b ->
+  lin_fold H r1 s a = lin_fold H r2 s b -> a = b \/ Collision.
+Proof.
+  induction r1 as [|t1 r1 IH]; intros [|t2 r2] s a b L La E; try discriminate.
+  - left. exact E.
+  - cbn [lin_fold] in E. simpl in L. injection L as L.
+    destruct (IH r2 (s + 1) _ _ L ltac:(unfold advance_linear_hash; rewrite !H_len; reflexivity) E) as [E1|C]; auto.
+    unfold advance_linear_hash in E1. destruct (H_inj H _ _ E1) as [E2|C]; auto.
+    unfold alh_bytes in E2. apply app_inv_head in E2. apply app_inj_len in E2 as [-> _]; auto.
+Qed.
+
+Lemma verify_linear_proof_inv p src tgt salh talh :
+  verify_linear_proof H p src tgt salh talh = true ->
+  exists rest, lenN rest = tgt - src /\ src <= tgt /\ talh = lin_fold H rest (src + 1) salh.
+Proof.
+  unfold verify_linear_proof. destruct p as [p|]; [|discriminate].
+  destruct (N.eqb_spec (lp_src p) src) as [Es|]; [|discriminate].
+  destruct (N.eqb_spec (lp_tgt p) tgt) as [Et|]; [|discriminate]. cbn [negb orb].
+  destruct (lp_terms p) as [|t0 rest]; [discriminate|].
+  destruct (N.eqb_spec (lp_src p) 0); [discriminate|].
+  destruct (N.ltb_spec (lp_tgt p) (lp_src p)); [discriminate|]. cbn [orb].
+  destruct (bytes_eqb salh t0) eqn:E0; [|discriminate]. cbn [negb]. apply list_eqb_eq in E0. subst t0.
+  destruct (N.eqb_spec (lenN (salh :: rest)) (tgt - src + 1)) as [El|]; [|discriminate]. cbn [negb].
+  intros V. apply list_eqb_eq in V. exists rest. rewrite lenN_cons in El. rewrite Es in V.
+  repeat split; auto; lia.
+Qed.
+
+(* READ-READ consistency against an ARBITRARY server (VerifyDualProof as it stands): two accepted
+   proofs for the same source id against ONE target state (tgt, talh) carry the same source Alh —
+   whatever headers, roots and terms the server sends. *)
+Theorem dual_proof_same_target_unique p1 p2 src tgt a b talh t1 t2 :
+  dp_tgt p1 = Some t1 -> dp_tgt p2 = Some t2 -> hdr_valid t1 = true -> hdr_valid t2 = true ->
+  len32 (dp_incl p1) -> len32 (dp_incl p2) ->
+  verify_dual_proof H (Some p1) src tgt a talh = Ok true ->
+  verify_dual_proof H (Some p2) src tgt b talh = Ok true ->
+  a = b \/ Collision.
+Proof.
+  intros T1 T2 V1 V2 F1 F2 A1 A2. unfold verify_dual_proof in A1, A2.
+  apply (verify_dual_proof_gen_inv H H_len) in A1 as (s1 & t1' & _ & T1' & _ & _ & _ & _ & Ea1 & Eb1 & Ci1 & Cl1 & _).
+  apply (verify_dual_proof_gen_inv H H_len) in A2 as (s2 & t2' & _ & T2' & _ & _ & _ & _ & Ea2 & Eb2 & Ci2 & Cl2 & _).
+  rewrite T1 in T1'. rewrite T2 in T2'. injection T1' as <-. injection T2' as <-.
+  apply alh_ok in Ea1 as [Ea1 _]. apply alh_ok in Ea2 as [Ea2 _].
+  apply alh_ok in Eb1 as [Eb1 _]. apply alh_ok in Eb2 as [Eb2 _].
+  destruct (alh_binding H H_len t1 t2 V1 V2 ltac:(congruence)) as [Ef|C]; auto.
+  assert (EB : h_bltxid t1 = h_bltxid t2) by (unfold hashed_fields in Ef; congruence).
+  assert (ER : h_blroot t1 = h_blroot t2) by (unfold hashed_fields in Ef; congruence).
+  destruct (N.lt_ge_cases src (h_bltxid t1)) as [Lt|Ge].
+  - destruct (Ci1 Lt) as [I1 _]. destruct (Ci2 ltac:(lia)) as [I2 _].
+    rewrite <- EB, <- ER in I2. unfold leaf_for in I1, I2.
+    apply (inclusion_unique _ _ _ _ _ _ _ F1 F2 I1 I2).
+  - specialize (Cl1 Ge). specialize (Cl2 ltac:(lia)).
+    apply verify_linear_proof_inv in Cl1 as (r1 & L1 & _ & E1).
+    apply verify_linear_proof_inv in Cl2 as (r2 & L2 & _ & E2).
+    apply (lin_fold_inj r1 r2 (src + 1) a b).
+    + unfold lenN in *. lia.
+    + rewrite Ea1, Ea2. unfold alh_v. rewrite !H_len. reflexivity.
+    + congruence.
+Qed.
+
+(* the same for VerifyDualProofV2 (sourceTxID < targetTxID) *)
+Theorem dual_proof_v2_same_target_unique p1 p2 src tgt a b talh t1 t2 :
+  d2_tgt p1 = Some t1 -> d2_tgt p2 = Some t2 -> hdr_valid t1 = true -> hdr_valid t2 = true ->
+  len32 (d2_incl p1) -> len32 (d2_incl p2) -> src <> tgt ->
+  verify_dual_proof_v2 H (Some p1) src tgt a talh = Ok true ->
+  verify_dual_proof_v2 H (Some p2) src tgt b talh = Ok true ->
+  a = b \/ Collision.
+Proof.
+  intros T1 T2 V1 V2 F1 F2 Ne A1 A2.
+  assert (Inv : forall p t x, d2_tgt p = Some t ->
+            verify_dual_proof_v2 H (Some p) src tgt x talh = Ok true ->
+            alh_v H t = talh /\
+            verify_inclusion H (d2_incl p) src (h_bltxid t) (leaf_for H x) (h_blroot t) = true).
+  { intros p t x Tp V. unfold verify_dual_proof_v2 in V. rewrite Tp in V.
+    destruct (d2_src p) as [sh|]; [|discriminate].
+    destruct ((h_id sh =? 0) || negb (h_id sh =? src) || negb (h_id t =? tgt)); [discriminate|].
+    destruct (tgt <? src); [discriminate|].
+    destruct (alh H sh) as [x'| |]; cbn [bind] in V; try discriminate.
+    destruct (negb (bytes_eqb x x')); [discriminate|].
+    destruct (alh H t) as [y| |] eqn:Et; cbn [bind] in V; try discriminate.
+    destruct (bytes_eqb talh y) eqn:Ey; cbn [negb] in V; [|discriminate].
+    apply list_eqb_eq in Ey. subst y. apply alh_ok in Et as [Et _].
+    destruct (negb (h_id sh - 1 =? h_bltxid sh) || negb (h_id t - 1 =? h_bltxid t)); [discriminate|].
+    destruct (N.eqb_spec src tgt); [contradiction|].
+    destruct (verify_inclusion H (d2_incl p) src (h_bltxid t) (leaf_for H x) (h_blroot t)); [|discriminate].
+    auto. }
+  destruct (Inv _ _ _ T1 A1) as [E1 I1]. destruct (Inv _ _ _ T2 A2) as [E2 I2].
+  destruct (alh_binding H H_len t1 t2 V1 V2 ltac:(congruence)) as [Ef|C]; auto.
+  assert (EB : h_bltxid t1 = h_bltxid t2) by (unfold hashed_fields in Ef; congruence).
+  assert (ER : h_blroot t1 = h_blroot t2) by (unfold hashed_fields in Ef; congruence).
+  rewrite <- EB, <- ER in I2. unfold leaf_for in I1, I2.
+  apply (inclusion_unique _ _ _ _ _ _ _ F1 F2 I1 I2).
 Qed.
 
 End Unique.
